@@ -199,6 +199,7 @@ pub fn profile(name: &str, tier: Tier) -> Option<Profile> {
             p.default_cases = if q { 150 } else { 2000 };
             p.self_lookups = if q { 200 } else { 3000 };
             p.queries = Range(0, 1);
+            p.families.push((2, Family::Cluster));
             if !q {
                 p.families.push((6, Family::Duplicates));
             }
